@@ -30,6 +30,7 @@ class Registry:
         self.flow_contracts = {} # "file::flow" -> FlowContract
         self.flow_files = []     # [(file, version)] to be parsed by the REAL parser (native/extract.py)
         self.sidecars = []
+        self.axiom_sets = set()  # opt-in axiom sets ("list_eq": structural == on lists)
         self.setters = {}        # attribute name -> assumed effect of the property setter
         self.eq_by = {}          # class name -> attribute: the class defines __eq__ as equality of that attribute (read from the real class: checked)
 
@@ -158,6 +159,10 @@ def dataclass_of(name, file):
 
 def assume(text):
     REG.assumed.append(text)
+
+
+def axioms(name):
+    REG.axiom_sets.add(name)
 
 
 def eq_by(cls, attr, file):
